@@ -143,6 +143,38 @@ def mismatch_scenario(r: Any) -> S.Scenario:
     return sc
 
 
+def late_mismatch_scenario(r: Any, variant: int) -> S.Scenario:
+    """The algorithm sets disagree only in a LATER slot, after a slot in which every algorithm involved appeared consistently on
+    both sides (an algorithm roll-over whose schema and KSR are out of step): ZSKs of RSASHA256 and RSASHA512 in every bundle,
+    KSK a = RSASHA256 and KSK b = RSASHA512 both signing slot 1; variant 0: a later slot is signed by a alone; variant 1: the
+    last bundle drops the RSASHA512 ZSK while b still signs; variant 2: the middle slot is signed by b alone.  The agreement is a
+    condition PER BUNDLE: signing must be refused."""
+    while True:
+        sc = S.gen_scenario(r, n_bundles=3, force_alg=8)
+        if len(sc.ksks) >= 2:
+            break
+    a, b = list(sc.ksks)[:2]
+    kb = sc.ksks[b]
+    kb["alg"] = 10
+    kb["entry"] = C.ksk_config_entry(kb["label"], kb["tk"], 10, hash_using_hsm=kb["entry"].get("hash_using_hsm"))
+    tk = r.choice([k for k in K.rsa_keys(1024) if all(k is not z[1] for z in sc.zsks)])
+    sc.zsks.append(("Zsha512", tk, 10))
+    zi = len(sc.zsks) - 1
+    sc.layout = [list(dict.fromkeys(list(b_) + [zi])) for b_ in sc.layout]
+    for slot in sc.schema.values():
+        slot["sign"] = [a, b]
+        slot["revoke"] = []
+    if variant == 0:
+        sc.schema[r.choice([2, 3])]["sign"] = [a]
+    elif variant == 1:
+        sc.layout[-1] = [i for i in sc.layout[-1] if i != zi]
+    else:
+        sc.schema[2]["sign"] = [b]
+    sc.wellformed = False
+    sc.meta["mismatch"] = f"late:{variant}"
+    return sc
+
+
 def run(tier: str, driver_ok: bool) -> Result:
     res = Result("C02")
     res.rule = (
@@ -211,8 +243,8 @@ def run(tier: str, driver_ok: bool) -> Result:
                         key="sign-fault:" + kind,
                         broken=bad,
                     )
-    for i in range(n_bad):
-        sc = mismatch_scenario(r)
+    for i in range(n_bad + (9 if tier == "quick" else 60)):
+        sc = mismatch_scenario(r) if i < n_bad else late_mismatch_scenario(r, i % 3)
         x = S.run_sign(sc, "sign_bundles")
         x["case"] = {"what": "sign_bundles", "scenario": S.describe(sc)}
         x["what"] = "sign_bundles"
